@@ -202,6 +202,11 @@ def spec_readers_vs_external(cx, strings):
             ok, got = expat_read(doc, attr)
             mine = (r[0] == "ok", unhex(r[1]) if r[0] == "ok" else b"")
             theirs = (ok, got.encode("utf-8", "surrogatepass") if ok else b"")
+            if not attr and ok and b"<" in s:
+                # markup inside content that expat accepts (CDATA section, comment, PI, child element): XmlSpec.read is the
+                # reader of character data and references only (XML 1.0 [14] CharData, [67] Reference) and stops at '<'
+                cx.count(None, False, "text:specxml-vs-expat:markup-in-content(out-of-fragment)")
+                continue
             cx.count(("specxml", attr, s), True, "text:specxml-vs-expat:" + ("ok" if ok else "reject"))
             if mine != theirs:
                 cx.disagree("text-spec", reqs[i], ["expat", str(ok), hexs(theirs[1])], r)
